@@ -40,6 +40,11 @@ func judgeCallC29(r *mon.Run, c *call) {
 			}
 			done[rf.key] = true
 			cls := fmt.Sprintf("%s/hops=%s/%s", rf.shape(), hopBucket(len(rf.Ifs)/2+1), c.Family)
+			if rf.Unencodable {
+				r.Class("not-demanded(exceeds SegLen/CurrHF range)/" + rf.shape() + "/" + c.Family)
+				r.Event("ref_not_demanded_unencodable")
+				continue
+			}
 			if rf.MaxIfPerAS > 2 {
 				// Crosses more than two interfaces of some AS: not demanded. When
 				// no AS is *visited* more than twice the statement could be read
@@ -75,7 +80,7 @@ func judgeCallC29(r *mon.Run, c *call) {
 				key = "C29:missing-dedup/" + rf.shape()
 			}
 			r.Violation(key, fmt.Sprintf("%s→%s (findAllIdentical=%v): the %s join %s is not among the %d returned paths",
-				c.Src, c.Dst, findAll, rf.shape(), fmtIfs(rf.Ifs), len(res)),
+				c.Src, c.Dst, findAll, rf.shape(), fmtIfsShort(rf.Ifs), len(res)),
 				c29Witness{Call: c.witness(), FindAll: findAll, Missing: fmtIfs(rf.Ifs), Shape: rf.shape(), Returned: ret})
 		}
 		// Paths that are no reference join are C28's business; count them.
@@ -107,6 +112,7 @@ func checkC29(r *mon.Run) {
 	r.Assumptions = []string{
 		"an up segment is usable only by the AS it ends at, a down segment only towards the AS it ends at; core segments are used whole (statement: shortcuts lie inside an up and a down segment)",
 		"up–core and core–down joins are demanded only at the first AS of the up/down segment",
+		"joins with a segment part of more than 63 hop fields or more than 64 hop fields in total cannot be written into a SCION path header and are not demanded",
 		"joins that cross more than two interfaces of one AS are not demanded; those that visit no AS more than twice (e.g. the source AS re-entered once) are recorded as class not-demanded(two visits of one AS), since the statement can be read either way",
 	}
 	if rf := r.ReplayFile(); rf != "" {
